@@ -224,7 +224,10 @@ def run_abk(ctx, case):
     Bij = nq.dicke.get_partial_trace_ABk_to_AB_index(k, dB)
     ctx.require(len(Bij) == dB * dB, 'index list has dimB^2 entries')
     if backend == 'torch':
-        tt = [torch.int64, torch.int64, torch.complex128]
+        # weights either as complex128 tensors (as PureBosonicExt stores them) or in their natural real dtype (torch.tensor(np_array))
+        wdt = torch.complex128 if case['prng'] % 2 else torch.float64
+        tt = [torch.int64, torch.int64, wdt]
+        ctx.label('torch weights ' + ('complex128' if case['prng'] % 2 else 'float64'))
         Bt = [[torch.tensor(np.asarray(y0), dtype=y1) for y0, y1 in zip(x, tt)] for x in Bij]
         out = nq.dicke.partial_trace_ABk_to_AB(torch.tensor(psi), Bt)
     else:
